@@ -14,7 +14,7 @@ func init() {
 	register(&Rule{ID: "LADDER-es5", Props: []string{"C03", "C05"}, Min: 40,
 		Doc: "S: the precedence ladder extracted from the parse*Expression methods (token set tested, callee producing the left operand, callee producing the right operand, loop/recursion form) equals the ES5 §11.5-11.14 table: level order, token sets, left/right associativity, Comparison flag; conditional/assignment/comma/unary/postfix tails",
 		Run: ruleLadder})
-	register(&Rule{ID: "TAB-ops", Props: []string{"C01", "C02", "C03", "C05"}, Min: 45,
+	register(&Rule{ID: "TAB-ops", Props: []string{"C01", "C02", "C03", "C05"}, Min: 45, SubsumedBy: "SPEC-comparison-eval", SubsumeKey: func(k string) bool { return strings.HasPrefix(k, "reader:binary-comparison:") },
 		Doc: "T+S: every operator token the parser can store into BinaryExpression/UnaryExpression/AssignExpression.Operator has an arm in the evaluator switch that serves that channel (comparison vs. non-comparison decided by the Comparison flag), and the writer sets equal the ES5 operator sets",
 		Run: ruleTabOps})
 	register(&Rule{ID: "LEX-punct", Props: []string{"C03", "C04"}, Min: 45,
